@@ -18,7 +18,7 @@ var corpus = [][]string{
 	{`var x = old`, `fn f { put $x }`, `var x = new`, `put $x`, `f`},
 	{`put [&foo=bar &lorem=ipsum][foo]`, `put [&a=10 &b=23 &sum=(+ 10 23)][sum]`, `var m = [&k=v]`, `set m[k2] = v2`, `put $m[k2] (count $m)`, `put $m[nokey]`},
 	{`put (num 6)[0]`, `put $nil[a]`, `put [a b][2]`, `put [a b][-3]`, `put [a b][x]`, `put abc[1..]`, `put [a b c][2..1]`},
-	{`+ 1 10 100`, `var x = (+ 1 10 100)`, `put $x`, `- 5`, `- 10 3 2`, `* 2 3 4`, `*`, `+`, `-`, `< 1 2 3`, `< 1 3 2`, `== 1 1 1`, `!= 1 2`, `!= 1`, `>= 3 3 1`, `+ a 1`, `% 7 -2`, `% -7 2`, `% 1 0`},
+	{`+ 1 10 100`, `var x = (+ 1 10 100)`, `put $x`, `- 5`, `- 10 3 2`, `* 2 3 4`, `*`, `+`, `-`, `< 1 2 3`, `< 1 3 2`, `== 1 1 1`, `!= 1 2`, `!= 1`, `>= 3 3 1`, `+ a 1`, `!= a`, `% x`, `- `, `% 7 -2`, `% -7 2`, `% 1 0`},
 	{`has-key [&a=b] a`, `has-key [&a=b] x`, `has-key [a b] 1`, `has-key [a b] 2`, `has-key [a b] x`, `has-key [a b c] 0..2`, `has-value [a b] b`, `has-value [&k=v] v`, `has-value [&k=v] k`, `assoc [a b] 0 x`, `assoc [a b] 2 x`, `assoc [&k=v] k2 v2`, `dissoc [&k=v &j=w] k`, `dissoc [&k=v] nokey`, `conj [a] b c`, `conj [a]`, `conj`, `to-string (num 12)`, `to-string a b`, `kind-of a [] [&] (num 1) $nil $true { } ?(fail x)`, `bool $nil`, `bool []`, `not a`, `not $false`},
 	{`/ 6 3`, `/ 12 2 3`, `/ -6 3`, `/ 6 0`, `/ 0 6`, `/ 1`, `/ 0`, `num 12`, `num x`, `num (num 3)`, `num []`, `eq a a`, `eq a b`, `eq [a [b]] [a [b]]`, `eq [&a=b &c=d] [&c=d &a=b]`, `eq a (num 1)`, `eq 1 (num 1)`, `not-eq a b`, `not-eq a`, `eq`, `eq a`},
 	{`var x = 2`, `put $x`, `del x`, `var m = [&k=v &k2=v2]`, `del m[k2]`, `put $m`, `var l = [[&k=v &k2=v2]]`, `del l[0][k2]`, `put $l`, `del m[nokey]`, `put $m`, `del l[0]`, `del l[1][k]`},
@@ -35,8 +35,8 @@ var corpus = [][]string{
 	{`var x = value`, `fn f { put $x }`, `f`, `$f~`, `var v = $f~`, `$v`, `put $put~`, `$put~ a b`},
 	{`var x = 1`, `$x`, `[a] b`, `(put put) a`, `x`},
 	// ---- control flow
-	{`if $true { put yes } else { put no }`, `if $false { put yes } elif $nil { put nil } else { put no }`, `if (put $true $false) { put both }`, `if (fail bad) { put x }`},
-	{`var i = (num 0)`, `while (< $i 3) { put $i; set i = (+ $i 1) } else { put never }`, `while (< $i 3) { put again } else { put never }`, `while $true { put once; break }`, `set i = 0`, `while (< $i 5) { set i = (+ $i 1); if (== $i 2) { continue }; if (== $i 4) { break }; put $i }`},
+	{`if $true { put yes } else { put no }`, `if $false { put yes } elif $nil { put nil } else { put no }`, `if (put $true $false) { put both }`, `if (fail bad) { put x }`, `if (nop) { put no-value-is-true } else { put f }`, `if $nil { put t }`, `if [] { put empty-list-is-true }`, `if (put $true $true) { put both }`, `if ?(fail x) { put t } elif ?(nop) { put ok-is-true }`},
+	{`var i = (num 0)`, `while (< $i 3) { put $i; set i = (+ $i 1) } else { put never }`, `while (< $i 3) { put again } else { put never }`, `while $true { put once; break }`, `var n = (num 0)`, `while (nop) { put no-value; set n = (+ $n 1); if (== $n 2) { break } }`, `set i = 0`, `while (< $i 5) { set i = (+ $i 1); if (== $i 2) { continue }; if (== $i 4) { break }; put $i }`},
 	{`for x [a b c] { put $x } else { put empty }`, `for x [] { put $x } else { put empty }`, `put $x`, `for x abc { put $x }`, `for x [&a=b] { put $x }`, `for x (put a b) { put $x }`, `for x [a b c] { if (eq $x b) { break }; put $x }`, `put $x`},
 	{`for x [1 2 3] { for y [a b] { if (eq $y b) { continue }; put $x$y }; if (== $x 2) { break } }`},
 	{`fn brk { break }`, `for x [a b c] { put $x; brk; put unreached }`, `fn cnt { continue }`, `for x [a b] { put $x; cnt; put unreached }`, `brk`},
